@@ -151,6 +151,8 @@ inductive CST where
   | record : Lay → Ents → Close → CST
   /-- `do lay { lay statements return blanks e lay }` -/
   | doB : Lay → Lay → Stmts → Lay → CST → Lay → CST
+  /-- `name blanks = blanks value` : an assignment -/
+  | asg : String → Lay → Lay → CST → CST
 /-- a non-empty argument / item list: each element possibly spread (`...a`), separated by
     `blanks , layout` -/
 inductive Args where
@@ -206,6 +208,7 @@ def text : CST → List Char
   | .doB l0 l1 ss w e l2 =>
     'd' :: 'o' :: (layChars l0 ++ '{' :: (layChars l1 ++ (stmtsText ss ++ (retLit ++
       (layChars w ++ (e.text ++ (layChars l2 ++ ['}'])))))))
+  | .asg n w l v => n.toList ++ (layChars w ++ '=' :: (layChars l ++ v.text))
 def argsText : Args → List Char
   | .last sp a => spreadChars sp ++ a.text
   | .cons sp a w l rest =>
@@ -247,6 +250,7 @@ def tree : CST → Expr
   | .rec0 _ => .record []
   | .record _ es _ => .record (entsTrees es)
   | .doB _ _ ss _ e _ => .doBlock (stmtsTrees ss) (.mk [] e.tree none)
+  | .asg n _ _ v => .assign n v.tree
 def argsTrees : Args → List Expr
   | .last sp a => [argTree sp a.tree]
   | .cons sp a _ _ rest => argTree sp a.tree :: argsTrees rest
@@ -287,6 +291,7 @@ def items : CST → List PItem
   | .rec0 _ => [.prim (.record [])]
   | .record _ es _ => [.prim (.record (entsTrees es))]
   | .doB _ _ ss _ e _ => [.prim (.doBlock (stmtsTrees ss) (.mk [] e.tree none))]
+  | .asg n _ _ v => [.prim (.assign n v.tree)]
 
 def isParen : CST → Bool
   | .paren .. => true
@@ -324,6 +329,7 @@ def headOk : CST → Prop
   | .rec0 _ => True
   | .record _ _ _ => True
   | .doB .. => True
+  | .asg n _ _ _ => wordOpText n.toList = false
 
 /-- the text starts with a prefix minus (decided on the structure: the leftmost leaf) -/
 def startsMinus : CST → Bool
@@ -369,6 +375,7 @@ def LayoutOk : CST → Prop
   | .record _ es c => EntsLayoutOk es ∧ c.okList = true
   | .doB l0 _ ss w e _ =>
     (l0 ≠ [] ∧ w ≠ [] ∧ wsOnly w = true) ∧ StmtsLayoutOk ss ∧ e.LayoutOk
+  | .asg _ w l v => wsOnly w = true ∧ wsOnly l = true ∧ v.LayoutOk
 /-- in front of a comma blanks only; behind it anything -/
 def ArgsLayoutOk : Args → Prop
   | .last _ a => a.LayoutOk
@@ -428,6 +435,7 @@ def Shaped : CST → Prop
   | .rec0 _ => True
   | .record _ es _ => EntsShaped es
   | .doB _ _ ss _ e _ => StmtsShaped ss ∧ e.Shaped
+  | .asg n _ _ v => nameOk n = true ∧ v.Shaped
 def ArgsShaped : Args → Prop
   | .last _ a => a.Shaped
   | .cons _ a _ _ rest => a.Shaped ∧ ArgsShaped rest
@@ -515,14 +523,15 @@ theorem ex_of_term {lam : Bool} {cs cs' rest : List Char} {e : Expr} {pre : List
   have := ex_intro ho hta
   simpa using this
 
-/-- a term that is neither a conditional nor a do-block nor a lambda -/
+/-- a term that is neither a conditional nor a do-block nor a lambda nor an assignment -/
 theorem termR_of_term2 {cs : List Char} {x : Expr × List Char} {f : Nat}
     (hc : ifHead cs = none) (hd : doHead cs = none) (hl : lambdaHead cs = none)
+    (ha : asgHead cs = none)
     (h : term2R f cs = .ok x) : termR (f + 1) cs = .ok x := by
   cases f with
   | zero => rw [term2R_zero] at h; cases h
   | succ g =>
-    rw [termR_succ, condR_succ, hc, doR_succ, hd, lamR_succ, hl]
+    rw [termR_succ, condR_succ, hc, doR_succ, hd, lamR_succ, hl, asgR_succ, ha]
     exact h
 
 /-- a prefix operator in front of an operand -/
@@ -759,6 +768,9 @@ theorem cparses : ∀ (c : CST), c.Shaped → CParses c
   | .doB .., _ => by
     intro rbp rest _ _ e' rest' hk
     exact PExpr.prim hk
+  | .asg .., _ => by
+    intro rbp rest _ _ e' rest' hk
+    exact PExpr.prim hk
 
 /-- the items of a well-shaped CST parse back to its tree -/
 theorem cst_pratt (c : CST) (h : c.Shaped) : prattParse c.items = some c.tree := by
@@ -783,6 +795,7 @@ theorem cst_pratt (c : CST) (h : c.Shaped) : prattParse c.items = some c.tree :=
     | rec0 l => trivial
     | record l es c => trivial
     | doB l0 l1 ss w e l2 => trivial
+    | asg n w l v => trivial
     | paren a e b => rename_i hp; cases hp
   have := cparses c h 0 [] (Nat.zero_le _) hfit c.tree [] (PLoop.stop lbp_nil (by omega))
   simp only [List.append_nil] at this
@@ -864,6 +877,9 @@ theorem text_start : ∀ (c : CST), c.Shaped → ∃ x tl, c.text = x :: tl ∧ 
   | .rec0 l, _ => ⟨'{', _, rfl, by decide⟩
   | .record l es c, _ => ⟨'{', _, rfl, by decide⟩
   | .doB .., _ => ⟨'d', _, rfl, by decide⟩
+  | .asg n w l v, h => by
+    obtain ⟨x, tl, hx, hc⟩ := name_start (n := n) h.1
+    exact ⟨x, _, by simp only [CST.text, hx, List.cons_append]; rfl, by simp [startChar, hc]⟩
 end
 
 /-- first character of an argument list: that of an operand, or the `.` of `...` -/
@@ -989,13 +1005,29 @@ theorem prefixUsage_stop {c : Char} (X : List Char) (hc : stopChar c = true) :
   rcases hc with ((rfl | rfl) | rfl) | rfl <;>
     simp [prefixUsage, naturalPrefixLits_eq, prefixLits_eq, firstRule, lit]
 
-theorem termAtom_stop {c : Char} (X : List Char) (hc : stopChar c = true) :
+/-- a character at which no operand starts: no prefix operator, no word, number, literal, list,
+    record, parenthesis, `...` -/
+def NoStart (c : Char) : Prop :=
+  (isIdentStart c = false ∧ isDigit c = false ∧ c ≠ 't' ∧ c ≠ 'f' ∧ c ≠ 'n' ∧ c ≠ '"' ∧ c ≠ '\'') ∧
+    (c ≠ '(' ∧ c ≠ '[' ∧ c ≠ '{') ∧ c ≠ 'i' ∧ c ≠ 'd' ∧ c ≠ '.' ∧ c ≠ '-' ∧ c ≠ '!'
+
+theorem noStart_stop {c : Char} (hc : stopChar c = true) : NoStart c := by
+  simp only [stopChar, Bool.or_eq_true, beq_iff_eq] at hc
+  rcases hc with ((rfl | rfl) | rfl) | rfl <;> (unfold NoStart; decide)
+
+theorem noStart_eq : NoStart '=' := by unfold NoStart; decide
+
+theorem prefixUsage_nostart {c : Char} (X : List Char) (hc : NoStart c) :
+    prefixUsage (c :: X) = none := by
+  obtain ⟨⟨_, _, _, _, c3, _, _⟩, _, _, _, _, c8, c9⟩ := hc
+  have e1 : ¬ ('n' = c) := fun e => c3 e.symm
+  have e2 : ¬ ('-' = c) := fun e => c8 e.symm
+  have e3 : ¬ ('!' = c) := fun e => c9 e.symm
+  simp [prefixUsage, naturalPrefixLits_eq, prefixLits_eq, firstRule, lit, e1, e2, e3]
+
+theorem termAtom_nostart {c : Char} (X : List Char) (hc : NoStart c) :
     termAtom (c :: X) = none := by
-  have hid : isIdentStart c = false ∧ isDigit c = false ∧ c ≠ 't' ∧ c ≠ 'f' ∧ c ≠ 'n' ∧
-      c ≠ '"' ∧ c ≠ '\'' := by
-    simp only [stopChar, Bool.or_eq_true, beq_iff_eq] at hc
-    rcases hc with ((rfl | rfl) | rfl) | rfl <;> decide
-  obtain ⟨h1, h2, c1, c2, c3, c4, c5⟩ := hid
+  obtain ⟨h1, h2, c1, c2, c3, c4, c5⟩ := hc.1
   have hb : boolRule (c :: X) = none := by
     have : firstLit [trueLit, falseLit] (c :: X) = none := by
       apply firstLit_none_of_heads
@@ -1016,40 +1048,57 @@ theorem termAtom_stop {c : Char} (X : List Char) (hc : stopChar c = true) :
   have hpl : plus isDigit (c :: X) = none := by simp [plus, h2]
   simp only [termAtom, hb, stringRule_none_of_head X c4 c5, hnl, identifier_none_of_start X h1, hpl]
 
-theorem lambdaHead_stop {c : Char} (X : List Char) (hc : stopChar c = true) :
+theorem termAtom_stop {c : Char} (X : List Char) (hc : stopChar c = true) :
+    termAtom (c :: X) = none := termAtom_nostart X (noStart_stop hc)
+
+theorem lambdaHead_nostart {c : Char} (X : List Char) (hc : NoStart c) :
     lambdaHead (c :: X) = none := by
-  have h : isIdentStart c = false ∧ c ≠ '.' ∧ c ≠ '(' := by
-    simp only [stopChar, Bool.or_eq_true, beq_iff_eq] at hc
-    rcases hc with ((rfl | rfl) | rfl) | rfl <;> decide
+  have h : isIdentStart c = false ∧ c ≠ '.' ∧ c ≠ '(' := ⟨hc.1.1, hc.2.2.2.2.1, hc.2.1.1⟩
   refine lambdaHead_noarg ?_ (fun r e => by simp only [List.cons.injEq] at e; exact h.2.2 e.1)
   have : ¬ ('.' = c) := fun e => h.2.1 e.symm
   simp [argumentR, identifier_none_of_start X h.1, spreadLit_eq, lit, this]
 
-/-- no expression starts at a closing bracket or a comma -/
-theorem exprR_stop (lam : Bool) {c : Char} (X : List Char) (hc : stopChar c = true) (f : Nat) :
+theorem lambdaHead_stop {c : Char} (X : List Char) (hc : stopChar c = true) :
+    lambdaHead (c :: X) = none := lambdaHead_nostart X (noStart_stop hc)
+
+/-- no expression starts at a character at which no operand starts -/
+theorem exprR_nostart (lam : Bool) {c : Char} (X : List Char) (hc : NoStart c) (f : Nat) :
     exprR lam (f + 4) (c :: X) = .fail := by
-  have hne : c ≠ '(' ∧ c ≠ '[' ∧ c ≠ '{' := by
-    simp only [stopChar, Bool.or_eq_true, beq_iff_eq] at hc
-    rcases hc with ((rfl | rfl) | rfl) | rfl <;> decide
+  have hne : c ≠ '(' ∧ c ≠ '[' ∧ c ≠ '{' := hc.2.1
   have ht2 : term2R (f + 1) (c :: X) = .fail := by
-    rw [term2R_succ, termAtom_stop X hc]
+    rw [term2R_succ, termAtom_nostart X hc]
     simp only
     split
     · rename_i r1 heq; simp only [List.cons.injEq] at heq; exact absurd heq.1 hne.1
     · rename_i r1 heq; simp only [List.cons.injEq] at heq; exact absurd heq.1 hne.2.1
     · rename_i r1 heq; simp only [List.cons.injEq] at heq; exact absurd heq.1 hne.2.2
     · rfl
-  have hci : c ≠ 'i' := by
-    simp only [stopChar, Bool.or_eq_true, beq_iff_eq] at hc
-    rcases hc with ((rfl | rfl) | rfl) | rfl <;> decide
-  have hcd : c ≠ 'd' := by
-    simp only [stopChar, Bool.or_eq_true, beq_iff_eq] at hc
-    rcases hc with ((rfl | rfl) | rfl) | rfl <;> decide
+  have hci : c ≠ 'i' := hc.2.2.1
+  have hcd : c ≠ 'd' := hc.2.2.2.1
   have ht : termR (f + 2) (c :: X) = .fail := by
     rw [termR_succ, condR_succ, ifHead_none_of_head X hci, doR_succ, doHead_none_of_head X hcd,
-      lamR_succ, lambdaHead_stop X hc]
+      lamR_succ, lambdaHead_nostart X hc, asgR_succ, asgHead_none_of_start X hc.1.1]
     exact ht2
-  rw [exprR_succ, operandR_succ, prefixStar_none (prefixUsage_stop X hc), ht]
+  rw [exprR_succ, operandR_succ, prefixStar_none (prefixUsage_nostart X hc), ht]
+
+/-- no expression starts at a closing bracket or a comma -/
+theorem exprR_stop (lam : Bool) {c : Char} (X : List Char) (hc : stopChar c = true) (f : Nat) :
+    exprR lam (f + 4) (c :: X) = .fail := exprR_nostart lam X (noStart_stop hc) f
+
+/-- a term in front of `==` (or of anything that is no `=`): the `assignment` alternative takes
+    the name and the first `=`, then finds no expression -/
+theorem termR_of_term2' {cs : List Char} {x : Expr × List Char} {f : Nat}
+    (hc : ifHead cs = none) (hd : doHead cs = none) (hl : lambdaHead cs = none)
+    (ha : ∀ m r, asgHead cs = some (m, r) → ∃ r', r = '=' :: r')
+    (h : term2R f cs = .ok x) : termR (f + 6) cs = .ok x := by
+  rw [termR_succ, condR_succ, hc, doR_succ, hd, lamR_succ, hl, asgR_succ]
+  cases hh : asgHead cs with
+  | none => exact term2R_mono (by omega) h
+  | some y =>
+    obtain ⟨m, r⟩ := y
+    obtain ⟨r', rfl⟩ := ha m r hh
+    simp only [exprR_nostart false r' noStart_eq f]
+    exact term2R_mono (by omega) h
 
 theorem lit_spread_none {c : Char} (X : List Char) (h : c ≠ '.') : lit spreadLit (c :: X) = none := by
   have : ¬ ('.' = c) := fun e => h e.symm
@@ -1409,6 +1458,16 @@ theorem lead : ∀ (c : CST), c.Shaped → c.LayoutOk → Lead c
       have hk := keyword_isSome_of_firstLit hf hb
       simp only [List.cons_append, List.nil_append] at hk ⊢
       simp [identifier, hk]
+  | .asg n w l v, h, _ => by
+    obtain ⟨hw, hnot⟩ := nameOk_facts h.1
+    have hbd : Boundary (layChars w ++ '=' :: (layChars l ++ v.text)) := by
+      obtain ⟨d, tl', hX, hd⟩ := lay_head w '=' (layChars l ++ v.text) (fun d => isIdentChar d = false)
+        (by decide) (by decide) (by decide) (by decide) (by decide)
+      rw [hX]; exact boundary_cons hd
+    exact Or.inr ⟨n.toList, layChars w ++ '=' :: (layChars l ++ v.text), by simp [CST.text], hw,
+      Or.inr ⟨hbd, w, '=', _, rfl,
+        Stopper.of_char _ (by decide) (by decide) (by decide) (by decide), fun e => by cases e⟩,
+      Or.inl hnot⟩
   | .cond w c l1 l2 t l3 l4 e, h, hl => by
     obtain ⟨x, tl, hx, hsx⟩ := text_start c h.1
     obtain ⟨hx1, _, _, hx4, hx5⟩ := startChar_facts hsx
@@ -1481,6 +1540,22 @@ theorem lambdaHead_atom {e : Expr} (h : atomOk e = true) {rest : List Char} (ht 
       rw [hw, List.cons_append] at this
       rw [List.cons_append]
       exact lambdaHead_nonname this (hall d (by rw [hw]; exact List.mem_cons_self))
+
+theorem asgHead_atom {e : Expr} (h : atomOk e = true) {rest : List Char} (ht : TEnd rest) :
+    ∀ m r, asgHead (atomText e ++ rest) = some (m, r) → ∃ r', r = '=' :: r' := by
+  rcases atom_ident h with ⟨n, hn, hw, hnot⟩ | hid
+  · have hnok : nameOk n = true := by
+      simp only [nameOk, Bool.and_eq_true, Bool.not_eq_true']
+      refine ⟨hw, ?_⟩
+      cases hc : Gen.grammarReserved.contains n with
+      | false => rfl
+      | true =>
+        exact absurd (mem_reservedLits.mpr (by rw [String.ofList_toList]; simpa using hc)) hnot
+    rw [hn]
+    exact asgHead_name_noLam hnok ht.1 ht.2
+  · intro m r h'
+    rw [asgHead_none_of_ident (hid rest ht.1)] at h'
+    cases h'
 
 theorem lambdaHead_bracket (X : List Char) : lambdaHead ('[' :: X) = none := by
   refine lambdaHead_noarg ?_ (fun r e => by cases e)
@@ -1613,7 +1688,7 @@ theorem lambdaHead_paren (a : Lay) (e : CST) (b : Lay) (rest : List Char) (hs : 
   simp only [lambdaHead, argumentList, argumentR_paren]
   rcases argumentListParen_paren a e b rest hs hl with h | ⟨args, h⟩
   · simp only [h]
-  · simp only [h, lit_arrow_none hn.1, Option.map_none]
+  · simp only [h, lit_arrow_none hn.1.1, Option.map_none]
 
 /-! #### the head of a lambda is read back -/
 
@@ -2275,12 +2350,14 @@ theorem noLam_lay_nl : ∀ (g : Lay), (g.any fun a => !a.isWs) = true → ∀ X,
         simp only [layChars, LayAtom.chars, List.cons_append, List.nil_append, List.append_assoc]
         exact skipWs_ws _ (by decide)
       have ih := noLam_lay_nl g' (by simpa [LayAtom.isWs] using h) X
-      exact ⟨fun ⟨r, hr⟩ => ih.1 ⟨r, e ▸ hr⟩, fun r1 hr => ih.2 r1 (e ▸ hr)⟩
+      exact ⟨⟨fun ⟨r, hr⟩ => ih.1.1 ⟨r, e ▸ hr⟩, fun r1 hr => ih.1.2 r1 (e ▸ hr)⟩,
+        fun r1 hr => ih.2 r1 (e ▸ hr)⟩
     · have e : skipWs (layChars (LayAtom.tab :: g') ++ X) = skipWs (layChars g' ++ X) := by
         simp only [layChars, LayAtom.chars, List.cons_append, List.nil_append, List.append_assoc]
         exact skipWs_ws _ (by decide)
       have ih := noLam_lay_nl g' (by simpa [LayAtom.isWs] using h) X
-      exact ⟨fun ⟨r, hr⟩ => ih.1 ⟨r, e ▸ hr⟩, fun r1 hr => ih.2 r1 (e ▸ hr)⟩
+      exact ⟨⟨fun ⟨r, hr⟩ => ih.1.1 ⟨r, e ▸ hr⟩, fun r1 hr => ih.1.2 r1 (e ▸ hr)⟩,
+        fun r1 hr => ih.2 r1 (e ▸ hr)⟩
     · simp only [layChars, LayAtom.chars, List.cons_append, List.nil_append, List.append_assoc]
       exact noLam_of_head (by decide) (by decide) (by decide)
     · simp only [layChars, LayAtom.chars, List.cons_append, List.nil_append, List.append_assoc]
@@ -2380,6 +2457,15 @@ theorem infixUsage_headOk : ∀ (c : CST), c.headOk → c.Shaped → c.LayoutOk 
         (e.text ++ (layChars l2 ++ '}' :: X))))))))
       (by decide +kernel)
     simpa only [CST.text, List.append_assoc, List.cons_append, List.nil_append] using this
+  | .asg n w l v, hh, hs, _ => by
+    intro g X lam _
+    obtain ⟨hshape, _⟩ := nameOk_facts hs.1
+    have hbd : Boundary (layChars w ++ '=' :: (layChars l ++ (v.text ++ X))) := by
+      obtain ⟨d, tl', hXX, hd⟩ := lay_head w '=' (layChars l ++ (v.text ++ X))
+        (fun d => isIdentChar d = false) (by decide) (by decide) (by decide) (by decide) (by decide)
+      rw [hXX]; exact boundary_cons hd
+    have := infixUsage_word_none lam g hshape.ne_nil hshape.all hbd hh
+    simpa only [CST.text, List.append_assoc, List.cons_append] using this
   | .lambda hd w l b, hh, hs, hl => by
     intro g X lam _
     have hnm := hs.1
@@ -2474,7 +2560,8 @@ theorem exprR_return {Y : List Char} (hb : Boundary Y) (f : Nat) :
   have ht : termR (f + 2) (retLit ++ Y) = .fail := by
     rw [termR_succ, condR_succ,
       show ifHead (retLit ++ Y) = none from ifHead_none_of_head _ (by decide), doR_succ,
-      show doHead (retLit ++ Y) = none from doHead_none_of_head _ (by decide), lamR_succ, hlam]
+      show doHead (retLit ++ Y) = none from doHead_none_of_head _ (by decide), lamR_succ, hlam,
+      asgR_succ, asgHead_none_of_ident hid]
     exact ht2
   rw [exprR_succ, operandR_succ, prefixStar_none hp, ht]
 
@@ -2599,15 +2686,16 @@ theorem lex_cst : ∀ (lam : Bool) (c : CST), c.Shaped → c.LayoutOk → (lam =
       prefixStar_none (prefixUsage_word hne hall hnot hb.1)
     have ht2 : term2R 1 (atomText e ++ rest) = .ok (e, rest) := by
       rw [term2R_succ, hterm rest hb.1]
-    exact ex_of_term hp (termR_of_term2 (ifHead_atom h hb.1) (doHead_atom h hb.1)
-      (lambdaHead_atom h hb) ht2) hk
+    exact ex_of_term hp (termR_of_term2' (ifHead_atom h hb.1) (doHead_atom h hb.1)
+      (lambdaHead_atom h hb) (asgHead_atom h hb) ht2) hk
   | lam, .str dq s, _, hl, _ => by
     intro rest its r hb _ hk
     have ht2 : term2R 1 (quoteChar dq :: (s.toList ++ quoteChar dq :: rest)) = .ok (.str s, rest) := by
       rw [term2R_succ, termAtom_string dq s hl rest]
     have := ex_of_term (prefixStar_none (prefixUsage_quote dq _))
       (termR_of_term2 (ifHead_none_of_head _ (by cases dq <;> decide))
-        (doHead_none_of_head _ (by cases dq <;> decide)) (lambdaHead_quote dq _) ht2) hk
+        (doHead_none_of_head _ (by cases dq <;> decide)) (lambdaHead_quote dq _)
+        (asgHead_none_of_start _ (by cases dq <;> decide)) ht2) hk
     simp only [CST.text, CST.items, List.append_assoc, List.cons_append, List.nil_append,
       List.singleton_append] at this ⊢
     exact this
@@ -2660,7 +2748,7 @@ theorem lex_cst : ∀ (lam : Bool) (c : CST), c.Shaped → c.LayoutOk → (lam =
         layoutStar_run b _ (layoutAtom_none (c := ')') (by decide)), cst_pratt e hse]
     have := ex_of_term (prefixStar_none (prefixUsage_paren _))
       (termR_of_term2 (ifHead_none_of_head _ (by decide)) (doHead_none_of_head _ (by decide))
-        (lambdaHead_paren a e b rest hse hl hb.2) ht2) hk
+        (lambdaHead_paren a e b rest hse hl hb.2) (asgHead_none_of_start _ (by decide)) ht2) hk
     simp only [CST.text, CST.items, List.append_assoc, List.cons_append, List.nil_append] at this ⊢
     exact this
   | lam, .call0 f l, h, hl, hls => by
@@ -2748,7 +2836,7 @@ theorem lex_cst : ∀ (lam : Bool) (c : CST), c.Shaped → c.LayoutOk → (lam =
         argR_stop true (c := ']') rest (by decide) 0, hc]
     have := ex_of_term (prefixStar_none (prefixUsage_bracket _))
       (termR_of_term2 (ifHead_none_of_head _ (by decide)) (doHead_none_of_head _ (by decide))
-        (lambdaHead_bracket _) ht2) hk
+        (lambdaHead_bracket _) (asgHead_none_of_start _ (by decide)) ht2) hk
     simp only [CST.text, CST.items, List.append_assoc, List.cons_append, List.nil_append,
       List.singleton_append] at this ⊢
     exact this
@@ -2769,7 +2857,7 @@ theorem lex_cst : ∀ (lam : Bool) (c : CST), c.Shaped → c.LayoutOk → (lam =
       simp only [termAtom_bracket, hgap, ha, hm, listClose_text c hlc rest, htr]
     have := ex_of_term (prefixStar_none (prefixUsage_bracket _))
       (termR_of_term2 (ifHead_none_of_head _ (by decide)) (doHead_none_of_head _ (by decide))
-        (lambdaHead_bracket _) ht2) hk
+        (lambdaHead_bracket _) (asgHead_none_of_start _ (by decide)) ht2) hk
     simp only [CST.text, CST.items, List.append_assoc, List.cons_append, List.nil_append,
       List.singleton_append] at this ⊢
     exact this
@@ -2790,6 +2878,34 @@ theorem lex_cst : ∀ (lam : Bool) (c : CST), c.Shaped → c.LayoutOk → (lam =
         lamR_succ, lambdaHead_text hd hok hnm w l hw _ hX]
       simp only [hg, cst_pratt b hsb]
     have := ex_of_term (prefixStar_none (lamHead_prefix hd hnm w _)) ht hk
+    simp only [CST.text, CST.items, List.append_assoc, List.cons_append, List.nil_append,
+      List.singleton_append] at this ⊢
+    exact this
+  | lam, .asg n w l v, h, hl, _ => by
+    intro rest its r hb hco hk
+    obtain ⟨hnm, hsv⟩ := h
+    obtain ⟨hw, hlw, hlv⟩ := hl
+    have hcl : Closes rest := hco rfl rfl
+    obtain ⟨x, tl, hx, hsx⟩ := text_start v hsv
+    obtain ⟨g, hg⟩ := lex_cst false v hsv hlv (fun e' => by cases e') rest [] rest hb
+      (fun _ _ => hcl) (after_closes hcl)
+    simp only [List.append_nil] at hg
+    have hnm' : (LamHead.bare (.req n)).namesOk = true := by
+      simp [LamHead.namesOk, LamHead.args, LArg.name, hnm]
+    have hxgt : x ≠ '>' := by intro e; subst e; revert hsx; decide
+    have ht : termR (g + 2) (n.toList ++ (layChars w ++ '=' :: (layChars l ++ (v.text ++ rest)))) =
+        .ok (.assign n v.tree, rest) := by
+      have h1 := ifHead_lamHead (.bare (.req n)) hnm' w (layChars l ++ (v.text ++ rest))
+      have h2 := doHead_lamHead (.bare (.req n)) hnm' w (layChars l ++ (v.text ++ rest))
+      simp only [LamHead.text, argText] at h1 h2
+      rw [termR_succ, condR_succ, h1, doR_succ, h2, lamR_succ]
+      rw [hx, List.cons_append] at hg ⊢
+      rw [lambdaHead_asg hnm w l hw x _ hxgt, asgR_succ,
+        asgHead_run hnm w l hw hlw x _ (startChar_facts hsx).2.2.2.1]
+      simp only [hg, cst_pratt v hsv]
+    have hp := lamHead_prefix (.bare (.req n)) hnm' w (layChars l ++ (v.text ++ rest))
+    simp only [LamHead.text, argText] at hp
+    have := ex_of_term (prefixStar_none hp) ht hk
     simp only [CST.text, CST.items, List.append_assoc, List.cons_append, List.nil_append,
       List.singleton_append] at this ⊢
     exact this
@@ -2863,7 +2979,7 @@ theorem lex_cst : ∀ (lam : Bool) (c : CST), c.Shaped → c.LayoutOk → (lam =
       simp only [termAtom_brace, gapG_run l rest (c := '}') (by decide), recItemR_brace rest 0, hc]
     have := ex_of_term (prefixStar_none (prefixUsage_brace _))
       (termR_of_term2 (ifHead_none_of_head _ (by decide)) (doHead_none_of_head _ (by decide))
-        (lambdaHead_brace _) ht2) hk
+        (lambdaHead_brace _) (asgHead_none_of_start _ (by decide)) ht2) hk
     simp only [CST.text, CST.items, List.append_assoc, List.cons_append, List.nil_append,
       List.singleton_append] at this ⊢
     exact this
@@ -2883,7 +2999,7 @@ theorem lex_cst : ∀ (lam : Bool) (c : CST), c.Shaped → c.LayoutOk → (lam =
       simp only [termAtom_brace, hgap, ha, hm, recordClose_text c hlc rest, htr]
     have := ex_of_term (prefixStar_none (prefixUsage_brace _))
       (termR_of_term2 (ifHead_none_of_head _ (by decide)) (doHead_none_of_head _ (by decide))
-        (lambdaHead_brace _) ht2) hk
+        (lambdaHead_brace _) (asgHead_none_of_start _ (by decide)) ht2) hk
     simp only [CST.text, CST.items, List.append_assoc, List.cons_append, List.nil_append,
       List.singleton_append] at this ⊢
     exact this
@@ -3458,6 +3574,7 @@ def stmtHeadOk : Expr → Bool
   | .ident n => !CST.wordOpText n.toList
   | .builtin n => !CST.wordOpText n.toList
   | .lambda args _ => CST.lamHeadOk args
+  | .assign n _ => !CST.wordOpText n.toList
   | _ => true
 
 mutual
@@ -3465,8 +3582,8 @@ mutual
     calls (arguments possibly spread: the flag says whether a `...e` is admitted here), index
     and field accesses, list literals (items possibly spread, no comments), lambdas (argument
     names that are identifiers), conditionals, record literals, do-blocks (statements without
-    comments whose leftmost name is no word operator, `stmtHeadOk`) over the atoms of `atomOk`
-    and string literals that do not contain both kinds of quote -/
+    comments whose leftmost name is no word operator, `stmtHeadOk`), assignments `name = value`
+    over the atoms of `atomOk` and string literals that do not contain both kinds of quote -/
 def fragB : Bool → Expr → Bool
   | _, .bin _ l r => fragB false l && fragB false r
   | _, .un op e => op != .invert && fragB false e
@@ -3486,6 +3603,7 @@ def fragB : Bool → Expr → Bool
   | _, .str s => !bothQuotes s
   | _, .record es => fragEntries es
   | _, .doBlock ss r => fragStmts ss && fragRet r
+  | _, .assign n v => nameOk n && fragB false v
   | _, _ => false
 /-- the returned expression of a do-block: no comments, in the fragment -/
 def fragRet : Item → Bool
@@ -3542,6 +3660,9 @@ theorem frag_record_iff (es : List Entry) : frag (.record es) = fragEntries es :
 theorem frag_doBlock_iff (ss : List Item) (lead : List String) (e : Expr) (tr : Option String) :
     frag (.doBlock ss (.mk lead e tr)) = (fragStmts ss && (entPlain lead tr && frag e)) := by
   simp [frag, fragB, fragRet]
+theorem frag_assign_iff (n : String) (v : Expr) :
+    frag (.assign n v) = (nameOk n && frag v) := by
+  simp [frag, fragB]
 theorem frag_lambda_iff (args : List LArg) (body : Expr) :
     frag (.lambda args body) = (args.all (fun a => nameOk a.name) && frag body) := by
   simp [frag, fragB]
@@ -3674,6 +3795,7 @@ def canon : Expr → CST
   | .str s => canonStr s
   | .record es => mkRecord (canonEntries es)
   | .doBlock ss (.mk _ e _) => .doB [.sp] stmtLay (canonStmts ss) [.sp] (canon e) [.lf]
+  | .assign n v => .asg n [.sp] [.sp] (canon v)
   /- only reached from `canonArgs`: the operand of a spread argument -/
   | .spread e => canon e
   | e => .atom e
@@ -4088,8 +4210,11 @@ theorem canon_tree : ∀ (sp : Bool) (t : Expr), fragB sp t = true → (canon t)
     obtain ⟨rfl, rfl⟩ := entPlain_eq hp
     have het := (canon_tree false e he).trans (unSpread_of_frag he)
     simp only [canon, CST.tree, canonStmts_tree ss hss, het]; rfl
-  | _, .inref _, h
-  | _, .assign _ _, h | _, .output _, h => by
+  | _, .assign n v, h => by
+    simp only [fragB, Bool.and_eq_true] at h
+    have hv := (canon_tree false v h.2).trans (unSpread_of_frag h.2)
+    simp only [canon, CST.tree, hv]; rfl
+  | _, .inref _, h | _, .output _, h => by
     simp [fragB] at h
 theorem canonArgs_tree : ∀ (args : List Expr), fragArgs args = true →
     (canonArgs args).map argT = args
@@ -4245,8 +4370,10 @@ theorem canon_items : ∀ (sp : Bool) (t : Expr), fragB sp t = true →
     obtain ⟨hss, hp, he⟩ := h
     obtain ⟨rfl, rfl⟩ := entPlain_eq hp
     simp only [canon, CST.items, canonStmts_tree ss hss, canon_tree_frag e he]; rfl
-  | _, .inref _, h
-  | _, .assign _ _, h | _, .output _, h => by
+  | _, .assign n v, h => by
+    simp only [fragB, Bool.and_eq_true] at h
+    simp only [unSpread, canon, CST.items, canon_tree_frag v h.2]; rfl
+  | _, .inref _, h | _, .output _, h => by
     simp [fragB] at h
 
 theorem canon_items_frag (t : Expr) (h : Frag t) : (canon t).items = PrattRT.items t := by
@@ -4388,7 +4515,10 @@ theorem headOk_canon : ∀ (t : Expr), fragB false t = true → stmtHeadOk t = t
   | .num x, h, _, _ => by
     simp only [fragB] at h
     exact wordOpText_atom h (fun n e => by cases e) (fun n e => by cases e)
-  | .spread _, h, _, _ | .inref _, h, _, _ | .assign _ _, h, _, _ | .output _, h, _, _ => by
+  | .assign n v, _, hs, _ => by
+    simp only [stmtHeadOk, Bool.not_eq_true'] at hs
+    simp only [canon, CST.headOk, hs]
+  | .spread _, h, _, _ | .inref _, h, _, _ | .output _, h, _, _ => by
     simp [fragB] at h
 
 theorem headOk_protC_canon (t : Expr) (h : fragB false t = true) (hs : stmtHeadOk t = true) :
@@ -4472,8 +4602,10 @@ theorem canon_shaped : ∀ (sp : Bool) (t : Expr), fragB sp t = true → (canon 
   | _, .doBlock ss (.mk lead e tr), h => by
     simp only [fragB, fragRet, Bool.and_eq_true] at h
     exact ⟨canonStmts_shaped ss h.1, canon_shaped false e h.2.2⟩
-  | _, .inref _, h
-  | _, .assign _ _, h | _, .output _, h => by
+  | _, .assign n v, h => by
+    simp only [fragB, Bool.and_eq_true] at h
+    exact ⟨h.1, canon_shaped false v h.2⟩
+  | _, .inref _, h | _, .output _, h => by
     simp [fragB] at h
 theorem canonArgs_shaped : ∀ (args : List Expr), fragArgs args = true →
     ∀ q ∈ canonArgs args, q.2.Shaped
@@ -4575,8 +4707,8 @@ theorem canon_layout : ∀ t : Expr, (canon t).LayoutOk
   | .record es => mkRecord_layout (canonEntries_layout es)
   | .doBlock ss (.mk _ e _) =>
     ⟨⟨by simp, by simp, rfl⟩, canonStmts_layout ss, canon_layout e⟩
-  | .inref _
-  | .assign _ _ | .output _ => trivial
+  | .assign _ v => ⟨rfl, rfl, canon_layout v⟩
+  | .inref _ | .output _ => trivial
 theorem canonArgs_layout : ∀ (args : List Expr), ∀ q ∈ canonArgs args, q.2.LayoutOk
   | [] => by intro q hq; cases hq
   | a :: rest => by
@@ -4698,6 +4830,10 @@ theorem startsMinus_text : ∀ (c : CST), c.Shaped → ∀ T,
   | .record l es c, _, T => by simp [CST.startsMinus, CST.text]
   | .cond .., _, T => by simp [CST.startsMinus, CST.text]
   | .doB .., _, T => by simp [CST.startsMinus, CST.text]
+  | .asg n w l v, h, T => by
+    obtain ⟨x, tl, hx, hc⟩ := name_start (n := n) h.1
+    have hx' : x ≠ '-' := (isIdentChar_cases hc).2.2.2.2.2.2.2.1
+    simp [CST.startsMinus, CST.text, hx, hx']
   | .lambda hd w l b, h, T => by
     have := lamHead_not_minus hd h.1 (layChars w ++ '=' :: '>' :: (layChars l ++ b.text) ++ T)
     simp only [CST.startsMinus, CST.text, List.append_assoc, Bool.false_eq_true, false_iff]
@@ -4925,8 +5061,15 @@ theorem canon_text : ∀ (sp : Bool) (t : Expr), fragB sp t = true →
       simp only [List.append_assoc]
     rw [e1, hst]
     simp [layChars, LayAtom.chars, stmtLay, retLit]
-  | _, .inref _, h
-  | _, .assign _ _, h | _, .output _, h => by
+  | _, .assign n v, h => by
+    simp only [fragB, Bool.and_eq_true] at h
+    have hv := canon_text false v h.2
+    rw [unSpread_of_frag h.2] at hv
+    simp only [exprToSource] at hv ⊢
+    simp only [unSpread, canon, CST.text, hv, exprSrc, String.toList_append, layChars,
+      LayAtom.chars, List.append_assoc, List.cons_append, List.nil_append]
+    rfl
+  | _, .inref _, h | _, .output _, h => by
     simp [fragB] at h
 theorem canonArgs_text : ∀ (args : List Expr), fragArgs args = true →
     (canonArgs args).map argS = (exprsSrc [] args).map String.toList
@@ -5054,8 +5197,8 @@ theorem frag_noInvert : ∀ (sp : Bool) (t : Expr), fragB sp t = true → PrattR
   | _, .str _, _ => rfl
   | _, .record _, _ => rfl
   | _, .doBlock _ _, _ => rfl
-  | _, .inref _, h
-  | _, .assign _ _, h | _, .output _, h => by
+  | _, .assign _ _, _ => rfl
+  | _, .inref _, h | _, .output _, h => by
     simp [fragB] at h
 
 /-! ### (12) re-layout -/
@@ -5084,6 +5227,7 @@ def normalize : CST → CST
   | .rec0 _ => .rec0 []
   | .record _ es _ => .record [] (normEnts es) (.plain [])
   | .doB _ _ ss _ e _ => .doB [.sp] stmtLay (normStmts ss) [.sp] e.normalize [.lf]
+  | .asg n _ _ v => .asg n [.sp] [.sp] v.normalize
 def normArgs : Args → Args
   | .last sp a => .last sp a.normalize
   | .cons sp a _ _ rest => .cons sp a.normalize [] [.sp] (normArgs rest)
@@ -5125,6 +5269,7 @@ theorem normalize_tree : ∀ c : CST, c.normalize.tree = c.tree
   | .rec0 _ => rfl
   | .record _ es _ => by simp only [normalize, tree, normEnts_trees es]
   | .doB _ _ ss _ e _ => by simp only [normalize, tree, normStmts_trees ss, normalize_tree e]
+  | .asg _ _ _ v => by simp only [normalize, tree, normalize_tree v]
 theorem normArgs_trees : ∀ as : Args, argsTrees (normArgs as) = argsTrees as
   | .last _ a => by simp only [normArgs, argsTrees, normalize_tree a]
   | .cons _ a _ _ rest => by simp only [normArgs, argsTrees, normalize_tree a, normArgs_trees rest]
@@ -5162,6 +5307,7 @@ theorem normalize_items : ∀ c : CST, c.normalize.items = c.items
   | .rec0 _ => rfl
   | .record _ es _ => by simp only [normalize, items, normEnts_trees es]
   | .doB _ _ ss _ e _ => by simp only [normalize, items, normStmts_trees ss, normalize_tree e]
+  | .asg _ _ _ v => by simp only [normalize, items, normalize_tree v]
 
 theorem normalize_isParen (c : CST) : c.normalize.isParen = c.isParen := by
   cases c with
@@ -5191,7 +5337,8 @@ theorem startsMinus_normalize : ∀ c : CST, c.normalize.startsMinus = c.startsM
   | .call f _ _ _ => by simp only [normalize, startsMinus, startsMinus_normalize f]
   | .access e _ _ _ => by simp only [normalize, startsMinus, startsMinus_normalize e]
   | .dot e _ => by simp only [normalize, startsMinus, startsMinus_normalize e]
-  | .list0 _ | .list _ _ _ | .lambda _ _ _ _ | .cond .. | .rec0 _ | .record _ _ _ | .doB .. => rfl
+  | .list0 _ | .list _ _ _ | .lambda _ _ _ _ | .cond .. | .rec0 _ | .record _ _ _ | .doB ..
+  | .asg .. => rfl
 
 theorem headOk_of_normalize : ∀ c : CST, c.normalize.headOk → c.headOk
   | .atom _, h => h
@@ -5205,6 +5352,7 @@ theorem headOk_of_normalize : ∀ c : CST, c.normalize.headOk → c.headOk
   | .access e _ _ _, h => headOk_of_normalize e h
   | .dot e _, h => headOk_of_normalize e h
   | .list0 _, _ | .list _ _ _, _ | .cond .., _ | .rec0 _, _ | .record _ _ _, _ | .doB .., _ => trivial
+  | .asg _ _ _ _, h => h
   | .lambda hd _ _ _, h => by
     simpa only [normalize, headOk, headOf_args] using h
 
@@ -5258,6 +5406,9 @@ theorem shaped_of_normalize : ∀ c : CST, c.normalize.Shaped → c.LayoutOk →
   | .doB _ _ ss _ e _, h, hl => by
     simp only [normalize, Shaped] at h
     exact ⟨stmtsShaped_of_normalize ss h.1 hl.2.1, shaped_of_normalize e h.2 hl.2.2⟩
+  | .asg _ _ _ v, h, hl => by
+    simp only [normalize, Shaped] at h
+    exact ⟨h.1, shaped_of_normalize v h.2 hl.2.2⟩
 theorem argsShaped_of_normalize : ∀ as : Args, ArgsShaped (normArgs as) → ArgsLayoutOk as →
     ArgsShaped as
   | .last _ a, h, hl => shaped_of_normalize a h hl
@@ -5372,8 +5523,8 @@ theorem canon_normalize : ∀ t : Expr, (canon t).normalize = canon t
   | .record es => by simp only [canon, mkRecord_normalize, canonEntries_normalize es]
   | .doBlock ss (.mk _ e _) => by
     simp only [canon, CST.normalize, canonStmts_normalize ss, canon_normalize e]
-  | .inref _
-  | .assign _ _ | .output _ => rfl
+  | .assign n v => by simp only [canon, CST.normalize, canon_normalize v]
+  | .inref _ | .output _ => rfl
 theorem canonArgs_normalize : ∀ args : List Expr, (canonArgs args).map normPair = canonArgs args
   | [] => rfl
   | a :: rest => by
@@ -5466,6 +5617,7 @@ inductive Wrap : CST → CST → Prop
       Wrap (.doB l0 l1 ss w e l2) (.doB l0 l1 ss' w e l2)
   | doE {e e' : CST} (l0 l1 : Lay) (ss : Stmts) (w l2 : Lay) : Wrap e e' →
       Wrap (.doB l0 l1 ss w e l2) (.doB l0 l1 ss w e' l2)
+  | asgV {v v' : CST} (n : String) (w l : Lay) : Wrap v v' → Wrap (.asg n w l v) (.asg n w l v')
 inductive WrapArgs : Args → Args → Prop
   | last {a a' : CST} (sp : Bool) : Wrap a a' → WrapArgs (.last sp a) (.last sp a')
   | consA {a a' : CST} (sp : Bool) (w l : Lay) (rest : Args) : Wrap a a' → WrapArgs (.cons sp a w l rest) (.cons sp a' w l rest)
@@ -5564,6 +5716,7 @@ theorem wrap_infs : ∀ {c c' : CST}, Wrap c c' → ∀ rule, PItem.inf rule ∈
   | _, _, .recA l c hw => by intro rule hm; simp [CST.items] at hm
   | _, _, .doS l0 l1 w e l2 hw => by intro rule hm; simp [CST.items] at hm
   | _, _, .doE l0 l1 ss w l2 hw => by intro rule hm; simp [CST.items] at hm
+  | _, _, .asgV n w l hw => by intro rule hm; simp [CST.items] at hm
 
 /-- extra parentheses do not expose a word operator at the start -/
 theorem wrap_headOk : ∀ {c c' : CST}, Wrap c c' → c.headOk → c'.headOk
@@ -5587,6 +5740,7 @@ theorem wrap_headOk : ∀ {c c' : CST}, Wrap c c' → c.headOk → c'.headOk
   | _, _, .recA l c hw, _ => trivial
   | _, _, .doS .., _ => trivial
   | _, _, .doE .., _ => trivial
+  | _, _, .asgV n w l hw, h => h
 
 theorem wrap_lamSafe {c c' : CST} (hw : Wrap c c') (h : LamSafe c.items) : LamSafe c'.items :=
   fun op hm => h op (wrap_infs hw _ hm)
@@ -5701,6 +5855,11 @@ theorem wrap_facts : ∀ {c c' : CST}, Wrap c c' →
     · rintro ⟨h1, h2⟩; exact ⟨j2 h1, h2⟩
     · rintro ⟨h0, h1, h2⟩; exact ⟨h0, j3 h1, h2⟩
   | _, _, .doE l0 l1 ss w l2 hw => by
+    obtain ⟨i1, _, i3, i4⟩ := wrap_facts hw
+    refine ⟨by simp only [CST.tree, i1], fun _ => rfl, ?_, ?_⟩
+    · rintro ⟨h1, h2⟩; exact ⟨h1, i3 h2⟩
+    · rintro ⟨h0, h1, h2⟩; exact ⟨h0, h1, i4 h2⟩
+  | _, _, .asgV n w l hw => by
     obtain ⟨i1, _, i3, i4⟩ := wrap_facts hw
     refine ⟨by simp only [CST.tree, i1], fun _ => rfl, ?_, ?_⟩
     · rintro ⟨h1, h2⟩; exact ⟨h1, i3 h2⟩
